@@ -931,7 +931,7 @@ func (s *Sim) loop() Result {
 			return Result{"tooling:untracked", "a task blocked outside the simulator's control"}
 		}
 		if s.Steps >= s.Cfg.MaxSteps {
-			return Result{"stepcap", fmt.Sprintf("step cap %d reached", s.Cfg.MaxSteps)}
+			return Result{"stepcap", fmt.Sprintf("step cap %d reached (fake time since last progress %v)\n%s", s.Cfg.MaxSteps, time.Since(s.lastProgress), s.Dump())}
 		}
 		t := s.pick()
 		if t == nil {
@@ -940,7 +940,9 @@ func (s *Sim) loop() Result {
 			if remain <= 0 {
 				return Result{"deadlock", "no progress for " + s.Cfg.Horizon.String() + " of simulated time\n" + s.Dump()}
 			}
+			raceEnable() // library code below must see its own synchronisation
 			tm := time.NewTimer(remain)
+			raceDisable()
 			select {
 			case <-s.wake:
 				tm.Stop()
